@@ -749,7 +749,8 @@ func init() {
 					if err != nil {
 						return err
 					}
-					many = append(many, sealedTok{"dlg", b, id, nil, d, iss})
+					_, mf, _ := fieldsOf(d)
+					many = append(many, sealedTok{"dlg", b, id, mf, d, iss})
 				}
 				for _, n := range []int{0, 1, 22, 23, 24, 25, 26, 255, 256, 257} {
 					order := make([]int, n)
@@ -778,6 +779,67 @@ func init() {
 								}
 								if got != n {
 									rep.violation(cs, fmt.Sprintf("%d tokens", n), fmt.Sprintf("%d tokens", got), fmt.Sprintf("a container of %d tokens reads back as %d", n, got))
+								}
+							}
+						}
+					}
+				}
+				// how large a token: the sizes around which a length prefix grows - the CAR section length (CID + sealed bytes)
+				// at 2^14 and 2^21, the CBOR byte-string head at 2^16
+				{
+					sizedTok := func(target int) (sealedTok, error) {
+						pad := target - 330
+						var b []byte
+						var id cid.Cid
+						var d *delegation.Token
+						for try := 0; try < 8; try++ {
+							var err error
+							d, err = delegation.Root(iss.id, iss.id, command.Command("/sized"), policy.Policy{}, delegation.WithMeta("blob", bytes.Repeat([]byte{0x5a}, pad)), delegation.WithNonce([]byte("0123456789ab")))
+							if err != nil {
+								return sealedTok{}, err
+							}
+							if b, id, err = d.ToSealed(iss.priv); err != nil {
+								return sealedTok{}, err
+							}
+							if len(b) == target {
+								break
+							}
+							pad += target - len(b)
+						}
+						if len(b) != target {
+							return sealedTok{}, fmt.Errorf("no token of %d bytes (got %d)", target, len(b))
+						}
+						_, sf, _ := fieldsOf(d)
+						return sealedTok{"dlg", b, id, sf, d, iss}, nil
+					}
+					cidLen := len(many[0].id.Bytes())
+					var targets []int
+					for _, section := range []int{1<<14 - 1, 1 << 14, 1<<14 + 1, 1<<14 + 64, 1<<14 + 127, 1<<14 + 128, 1<<21 - 1, 1 << 21, 1<<21 + 1, 1<<21 + 16383, 1<<21 + 16384} {
+						targets = append(targets, section-cidLen)
+					}
+					targets = append(targets, 1<<16-1, 1<<16, 1<<16+1)
+					for _, target := range targets {
+						st, err := sizedTok(target)
+						if err != nil {
+							return err
+						}
+						set := []sealedTok{many[0], st, many[1]}
+						for _, f := range []string{"car", "cbor"} {
+							for _, b64 := range []bool{false, true} {
+								for _, wv := range []string{"bytes", "stream"} {
+									rep.Evaluations++
+									cs := map[string]any{"fmt": f, "b64": b64, "writer": wv, "sealed_bytes": target, "car_section_bytes": target + cidLen}
+									data, err := writeContainer(set, []int{1, 2, 3}, f, b64, wv)
+									if err != nil {
+										rep.violation(cs, "written", err.Error(), "writing a container with a token of this size failed")
+										continue
+									}
+									rd, err := readContainer(data, f, b64, map[string]string{"bytes": "stream", "stream": "bytes"}[wv], nil)
+									if err != nil {
+										rep.violation(cs, "the tokens that were added", err.Error(), "a container holding a token of this size cannot be read back")
+									} else if why := sameSet(rd, set); why != "" {
+										rep.violation(cs, "exactly the tokens that were added", why, "round trip with a token of this size")
+									}
 								}
 							}
 						}
